@@ -5,6 +5,7 @@ CONSTANTS
   MaxInp = 8
   MaxWrite = 3
   EmitOps = TRUE
+  EmitEvery = 300
   Backward = TRUE
 INVARIANT Inv
 PROPERTY Refines
